@@ -442,9 +442,15 @@ Fixpoint restore_dups (s : fstore) (succ : list (name * nat)) : fstore :=
            end
   end.
 
-(* Store.Push of the (unnamed) manifest whose layers are [succ] *)
+(* Store.Push of the (unnamed) manifest whose layers are [succ].  With IgnoreNoName the
+   manifest itself is discarded, its successors are restored all the same
+   (restoreDuplicatesOfSkipped). *)
 Definition fpush_manifest (forceCAS ignoreNoName : bool) (s : fstore) (succ : list (name * nat)) : fstore :=
-  if ignoreNoName then s                    (* errSkipUnnamed: returns before restoreDuplicates *)
+  if forceCAS then s else restore_dups s succ.
+
+(* before the fix: errSkipUnnamed returned before restoreDuplicates *)
+Definition fpush_manifest_prefix (forceCAS ignoreNoName : bool) (s : fstore) (succ : list (name * nat)) : fstore :=
+  if ignoreNoName then s
   else if forceCAS then s
   else restore_dups s succ.
 
@@ -461,3 +467,5 @@ Fixpoint fpush_layers (s : fstore) (ls : list (name * nat)) : fstore :=
 
 Definition copy_into (forceCAS ignoreNoName : bool) (pushed layers : list (name * nat)) : fstore :=
   fpush_manifest forceCAS ignoreNoName (fpush_layers fstore_empty pushed) layers.
+Definition copy_into_prefix (forceCAS ignoreNoName : bool) (pushed layers : list (name * nat)) : fstore :=
+  fpush_manifest_prefix forceCAS ignoreNoName (fpush_layers fstore_empty pushed) layers.
